@@ -109,6 +109,7 @@ func (r *Reader) getTopics() []string {
 func (r *Reader) useSyncCommits() bool { return r.config.CommitInterval == 0 }
 
 func (r *Reader) unsubscribe() {
+	verifPoint("reader.unsubscribe")
 	r.cancel()
 	r.join.Wait()
 	// it would be interesting to drain the r.msgs channel at this point since
@@ -761,6 +762,7 @@ func (r *Reader) Close() error {
 	closed := r.closed
 	r.closed = true
 	r.mutex.Unlock()
+	verifPoint("reader.closeMarked")
 
 	r.cancel()
 	r.stop()
@@ -833,6 +835,7 @@ func (r *Reader) FetchMessage(ctx context.Context) (Message, error) {
 			return Message{}, err
 
 		case m, ok := <-r.msgs:
+			verifPoint("reader.received")
 			if !ok {
 				return Message{}, io.EOF
 			}
@@ -1189,6 +1192,7 @@ func (r *Reader) start(offsetsByPartition map[topicPartition]int64) {
 	r.cancel() // always cancel the previous reader
 	r.cancel = cancel
 	r.version++
+	verifPoint("reader.start")
 
 	r.join.Add(len(offsetsByPartition))
 	for key, offset := range offsetsByPartition {
